@@ -144,3 +144,42 @@ Definition replay (sym : bool) (g : graph) (radial : list bool) (ops : list op) 
   let n := length g in
   let x := run_ops sym dm radial ops (init_st n sym) in
   (missing_nodes l (find_missing sym n radial x), output sym n radial x).
+
+(** ---- the iteration counters of [find_missing_nodes] and the main loop of [compute] ---- *)
+Record counters := mkC { c_ri : option nat; c_di : option nat; c_fi : option nat; c_ai : option nat }.
+
+Definition first_time (c : option nat) (b : bool) (it : nat) : option nat :=
+  match c with Some _ => c | None => if b then Some it else None end.
+
+(** radius_iterations, diameter_iterations, forward_iter are set once; all_iter is
+    overwritten whenever everything is complete *)
+Definition upd_counters (m : missing) (it : nat) (c : counters) : counters :=
+  mkC (first_time (c_ri c) (m_r m =? 0) it)
+      (first_time (c_di c) ((m_df m =? 0) || (m_db m =? 0)) it)
+      (first_time (c_fi c) (m_af m =? 0) it)
+      (if (m_af m =? 0) && (m_ab m =? 0) then Some it else c_ai c).
+
+(** [while missing_nodes > 0 { step; find_missing_nodes }]: [ok] records that the loop was
+    entered only with missing nodes and left with none *)
+Fixpoint loop_ops (sym : bool) dm (n : nat) radial (l : level) (ops : list op) (x : st)
+    (c : counters) (ok : bool) : bool * (counters * st) :=
+  match ops with
+  | [] => (ok && (missing_nodes l (find_missing sym n radial x) =? 0), (c, x))
+  | o :: r =>
+    let ok' := ok && negb (missing_nodes l (find_missing sym n radial x) =? 0) in
+    let x' := step sym dm radial o x in
+    loop_ops sym dm n radial l r x' (upd_counters (find_missing sym n radial x') (iters x') c) ok'
+  end.
+
+(** a logged run: the visits of the initial SumSweep heuristic, one [find_missing_nodes],
+    then the visits of the main loop *)
+Definition run_logged_dm (sym : bool) (dm : list (list (option nat))) (n : nat) (radial : list bool)
+    (heur loop : list op) (l : level) : bool * (counters * ess_out) :=
+  let x0 := run_ops sym dm radial heur (init_st n sym) in
+  let c0 := upd_counters (find_missing sym n radial x0) (iters x0) (mkC None None None None) in
+  match loop_ops sym dm n radial l loop x0 c0 true with
+  | (ok, (c, x)) => (ok, (c, output sym n radial x))
+  end.
+Definition run_logged (sym : bool) (g : graph) (radial : list bool) (heur loop : list op) (l : level)
+    : bool * (counters * ess_out) :=
+  run_logged_dm sym (dist_matrix g) (length g) radial heur loop l.
